@@ -72,7 +72,7 @@ func c19RunScenario(sc c19Scenario) (res []c19Result, problems []string, inconcl
 		case 2:
 			return 11 * time.Second
 		}
-		if p.Script == "early" || p.Script == "twice" || p.Script == "delayed" {
+		if p.Script == "early" || p.Script == "twice" || p.Script == "delayed" || p.Script == "instant" {
 			return time.Second
 		}
 		return 200 * time.Millisecond
@@ -92,6 +92,42 @@ func c19RunScenario(sc c19Scenario) (res []c19Result, problems []string, inconcl
 	var wg sync.WaitGroup
 	var mu sync.Mutex
 	start := make([]time.Time, len(sc.Pings))
+	// script "instant": the station answers so fast that the packet loop has parsed the echo reply before the write of the
+	// request returns (a responder on the same host, a switch that loops the frame back): the reply is parsed from
+	// inside the connection's WriteTo, on another goroutine, and the write waits for it
+	conn.mu.Lock()
+	conn.hook = func(b []byte) {
+		d := ref.Decode(b)
+		if (d.PayloadID != ref.PICMP4 && d.PayloadID != ref.PICMP6) || d.OffPayload+8 > len(b) || (b[d.OffPayload] != 8 && b[d.OffPayload] != 128) {
+			return
+		}
+		idx := -1
+		if d.DstIP.Is4() {
+			idx = int(d.DstIP.As4()[3]) - 30
+		} else {
+			idx = int(d.DstIP.As16()[15]) - 30
+		}
+		if idx < 0 || idx >= len(sc.Pings) || sc.Pings[idx].Script != "instant" {
+			return
+		}
+		id := uint16(b[d.OffPayload+4])<<8 | uint16(b[d.OffPayload+5])
+		reply := byte(0)
+		if sc.Pings[idx].V6 {
+			reply = 129
+		}
+		fb := echoFrame(w, sc.Pings[idx].V6, reply, id)
+		done := make(chan struct{})
+		go func() {
+			defer close(done)
+			buf := make([]byte, packet.EthMaxSize)
+			drv.Catch(func() { s.Parse(buf[:copy(buf, fb)]) })
+		}()
+		select {
+		case <-done:
+		case <-time.After(3 * time.Second):
+		}
+	}
+	conn.mu.Unlock()
 	for i, p := range sc.Pings {
 		wg.Add(1)
 		go func(i int, p c19Ping) {
@@ -258,7 +294,7 @@ func c19RunScenario(sc c19Scenario) (res []c19Result, problems []string, inconcl
 				problems = append(problems, fmt.Sprintf("c19-badfamily-accepted: ping %d with a destination of the wrong address family returned nil", i))
 			}
 			continue
-		case "early", "twice", "delayed":
+		case "early", "twice", "delayed", "instant":
 			if r.id < 0 || r.injected == 0 || r.injected > to-300*time.Millisecond {
 				inconclusive = true // the machine was too slow to play the script in time: no verdict
 				continue
@@ -403,7 +439,7 @@ func TestC19(t *testing.T) {
 		for i := rapid.IntRange(8, 24).Draw(t, "nscenarios"); i > 0; i-- {
 			var sc c19Scenario
 			for k := rapid.IntRange(1, 8).Draw(t, "npings"); k > 0; k-- {
-				script := rapid.SampledFrom([]string{"early", "early", "early", "twice", "delayed", "delayed", "foreign", "request", "othertype", "othertype", "truncated", "late", "none"}).Draw(t, "script")
+				script := rapid.SampledFrom([]string{"early", "early", "early", "twice", "delayed", "delayed", "foreign", "request", "othertype", "othertype", "truncated", "late", "none", "instant", "instant"}).Draw(t, "script")
 				if rapid.IntRange(0, 19).Draw(t, "bad") == 0 {
 					script = "badfamily"
 				}
